@@ -62,10 +62,16 @@ class World(object):
                 self.enums.append(cls)
                 if local:
                     self.cfg.classes.add(cls)
+        self.aliased = set()
         for s in self.shapes:
             for link in s.chain():
                 if link.local:
-                    self.cfg.classes.add(link.cls)
+                    if rng.random() < 0.25:
+                        # registered under a custom name only ("name: custom name used in the __jsonclass__ attribute")
+                        self.cfg.classes.add(link.cls, "Alias_" + link.cls.__name__)
+                        self.aliased.add(link.cls)
+                    else:
+                        self.cfg.classes.add(link.cls)
         # RPC loop
         self.planned = collections.deque()
         reg = oracle.RegModel({"take": Spec("take", "*args, **kwargs", ("planned", self.planned))}, None, "default")
@@ -170,6 +176,8 @@ def features(world, x, acc=None):
         s = world.by_cls.get(type(x))
         if s is not None:
             acc.add("local" if s.local else "qualified")
+            if type(x) in getattr(world, "aliased", ()):
+                acc.add("alias")
             for link in s.chain():
                 acc.add(link.kind)
                 if any(f.startswith("__") and not f.endswith("__") for f in link.fields):
@@ -189,7 +197,9 @@ def mech(feats, position):
     tags = []
     if "mangled-slot" in feats:
         tags.append("mangled-slot")
-    if "local" in feats:
+    if "alias" in feats:
+        tags.append("local-registered-under-an-alias")
+    elif "local" in feats:
         tags.append("local" + ("-nested" if position != "top" else "-top"))
     if not tags:
         for t in ("serialize-list", "serialize-dict", "slots", "enum", "decimal", "dict"):
